@@ -632,6 +632,21 @@ func (u *UpServer) handle(b []byte, proto string, conn int, qc qctx, reply func(
 		if m.Bits&refdns.BitRD == 0 {
 			r.Bits &^= refdns.BitRD
 		}
+		if act.Hdr != 0 {
+			// a header no well-behaved server sends; the proxy owns these
+			// fields of what it relays (C03)
+			r.Bits = r.Bits&^(0xF<<11) | uint16(act.Hdr&15)<<11
+			if act.Hdr&16 != 0 {
+				r.Bits &^= refdns.BitRA
+			}
+			if act.Hdr&32 != 0 {
+				r.Bits ^= refdns.BitRD
+			}
+			if act.Hdr&64 != 0 {
+				r.Bits &^= refdns.BitQR
+			}
+			s.Fault("up_reply_odd_header")
+		}
 		return refdns.Pack(r, PackOptsFor(ans.Compress)), serial, key
 	}
 	sentID := q.WireID
